@@ -91,7 +91,7 @@ func (g *c10Gen) options() string {
 
 func (g *c10Gen) fileArg() string {
 	return g.pick(append([]string{"", "/dev/zero", "/dev/null", "/", "/etc", "/nonexistent/file", "*", "/*/*/*/*", "[", "[a-", "\\", "/proc/self/mem",
-		"{a,b}", "/tmp/../../../etc/hostname", g.dir, g.dir + "/*", g.dir + "/[", "~", ".", "..", "/dev/stdin", "/proc/self/fd/0", strings.Repeat("a/", 200)}, g.files...))
+		"{a,b}", "/tmp/../../../etc/hostname", g.dir, g.dir + "/*", g.dir + "/many/*.log", g.dir + "/many/*.log", g.dir + "/[", "~", ".", "..", "/dev/stdin", "/proc/self/fd/0", strings.Repeat("a/", 200)}, g.files...))
 }
 
 func (g *c10Gen) regexArg() string {
@@ -187,6 +187,7 @@ func (g *c10Gen) input() c10Input {
 		valid := []string{
 			"tail " + f + " regex:noop ", "cat " + f + " regex:noop ", "grep " + f + " regex:default line",
 			"tail:plain=true " + g.files[1] + " regex:noop ", "cat:quiet=true " + g.dir + "/*.log regex:noop ",
+			"cat " + g.dir + "/many/*.log regex:noop ", "grep " + g.dir + "/many/m*.log regex:default one",
 			"map select count($line) from STATS group by $hostname", "map from STATS select count($line),max($goroutines) group by $hostname interval 1",
 			"map " + g.queries[rng.Intn(len(g.queries))], ".ack close connection", "grep:max=1:after=2 " + f + " regex:invert two",
 		}
@@ -216,6 +217,11 @@ func (g *c10Gen) input() c10Input {
 	return c10Input{Hex: fmt.Sprintf("%x", b.Bytes()), Class: cls}
 }
 
+// c10Permissions: a rule list as an operator writes it (several rules; all
+// files of the harness stay readable).
+var c10Permissions = []string{"^/.*", "!^/nonexistent-a/.*", "!^/nonexistent-b/.*\\.key$", "readfiles:^/.*", "!^/root/\\.ssh/.*",
+	"!^/nonexistent-c/[[:digit:]]+$", "!^/nonexistent-d/.*", "readfiles:!^/nonexistent-e/.*", "!^/nonexistent-f/.*", "!^/nonexistent-g/.*"}
+
 // deterministic probes: regression guards for the repaired crashes.
 func c10Probes(file string) []c10Input {
 	mk := func(cmd string) c10Input {
@@ -239,6 +245,12 @@ func c10(r *vlib.Run) int {
 	os.WriteFile(f1, []byte("INFO|1002-071209|1|m.go:1|8|14|7|0.21|471h|MAPREDUCE:STATS|a=1|b=2\nline two\nline three\n"), 0644)
 	f2 := filepath.Join(dir, "empty.log")
 	os.WriteFile(f2, nil, 0644)
+	// a directory of many files: one request makes the server check and read
+	// all of them at once
+	os.MkdirAll(filepath.Join(dir, "many"), 0755)
+	for k := 0; k < 250; k++ {
+		os.WriteFile(filepath.Join(dir, "many", fmt.Sprintf("m%03d.log", k)), []byte(fmt.Sprintf("file %d line one\n", k)), 0644)
+	}
 	rngq := r.Rng("queries")
 	var queries []string
 	for i := 0; i < 300; i++ {
@@ -248,9 +260,21 @@ func c10(r *vlib.Run) int {
 	}
 	g := &c10Gen{rng: r.Rng("inputs"), files: []string{f1, f2}, dir: dir, queries: queries}
 	n := r.N(5000, 250000)
-	inputs := c10Probes(f1)
+	inputs := append(make([]c10Input, 4), c10Probes(f1)...) // the first 4 are overwritten below
 	for len(inputs) < n {
 		inputs = append(inputs, g.input())
+	}
+	// the very first sessions of every worker process (a freshly started
+	// server, nothing cached or compiled yet) are several many-file requests
+	// at the same time
+	for i := range inputs {
+		if k := i % 400; k < 4 {
+			cmd := "cat " + dir + "/many/*.log regex:noop "
+			if k%2 == 1 {
+				cmd = "grep " + dir + "/many/m*.log regex:default one"
+			}
+			inputs[i] = c10Input{Hex: fmt.Sprintf("%x", encodeCommand(cmd)), Class: "valid-sequence/many-file-glob"}
+		}
 	}
 	cases := make([]interface{}, len(inputs))
 	for i := range inputs {
@@ -329,7 +353,8 @@ func c10SSH(r *vlib.Run, g *c10Gen, file string) {
 	canaryKey, _ := vlib.GenKey("ed25519")
 	spec := &vlib.ServerSpec{
 		Name:     "c10",
-		Server:   map[string]interface{}{"MaxConnections": 200, "MaxConcurrentCats": 8, "MaxConcurrentTails": 50},
+		Server: map[string]interface{}{"MaxConnections": 200, "MaxConcurrentCats": 8, "MaxConcurrentTails": 50,
+			"Permissions": map[string]interface{}{"Default": c10Permissions}},
 		LogLevel: "error",
 		Users:    map[string][]string{"hostile": {key.AuthKey}, "canary": {canaryKey.AuthKey}},
 	}
